@@ -293,11 +293,19 @@ def parse_set_cookie_headers(headers: Sequence[str]) -> list[tuple[str, Morsel[s
         n = len(header)
         current_morsel: Morsel[str] | None = None
         morsel_seen = False
+        attrs_only = False
 
         while 0 <= i < n:
             # Start looking for a cookie
             match = _COOKIE_PATTERN.match(header, i)
             if not match:
+                if morsel_seen:
+                    # Empty or unparsable attribute - ignore it (RFC 6265
+                    # 5.2): the attributes after the next ";" still apply to
+                    # the cookie seen so far, but no further cookie is started
+                    i = header.find(";", i) + 1 or n
+                    attrs_only = True
+                    continue
                 # No more cookies
                 break
 
@@ -338,7 +346,7 @@ def parse_set_cookie_headers(headers: Sequence[str]) -> list[tuple[str, Morsel[s
                 elif current_morsel is not None:
                     # Regular attribute with value
                     current_morsel[lower_key] = _unquote(value)
-            elif value is not None:
+            elif value is not None and not attrs_only:
                 # This is a cookie name=value pair
                 # Validate the name
                 if key in _COOKIE_KNOWN_ATTRS or not _COOKIE_NAME_RE.match(key):
@@ -364,7 +372,8 @@ def parse_set_cookie_headers(headers: Sequence[str]) -> list[tuple[str, Morsel[s
                         parsed_cookies.append((key, current_morsel))
                         morsel_seen = True
             elif morsel_seen:
-                # Unknown attribute without a value - ignore it (RFC 6265 5.2)
+                # Unknown attribute without a value, or a pair after an
+                # unparsable attribute - ignore it (RFC 6265 5.2)
                 continue
             else:
                 # Invalid cookie string - no value for non-attribute
